@@ -34,16 +34,17 @@ type Ob struct {
 
 // Ledger collects obligations for one property run.
 type Ledger struct {
-	Prop      string
-	Obs       []Ob
-	Notes     []string
-	Minima    []string // "rule: found N ≥ min M"
-	residue   map[string]string
-	resUsed   map[string]bool
-	known     map[string]string // key → text (for this property)
-	knownUsed map[string]bool
-	fixed     []string
-	keyCount  map[string]int
+	Prop       string
+	Obs        []Ob
+	Notes      []string
+	Minima     []string // "rule: found N ≥ min M"
+	residue    map[string]string
+	resUsed    map[string]bool
+	known      map[string]string // key → text (for this property)
+	knownUsed  map[string]bool
+	fixed      []string
+	keyCount   map[string]int
+	NoEvidence bool
 }
 
 func NewLedger(prop, verifDir string) (*Ledger, error) {
@@ -289,11 +290,13 @@ func (l *Ledger) Finish(p *Prog, tier string, seed int, start time.Time, verifDi
 	}
 	ev := Evidence{PropertyID: l.Prop, Tier: tier, Seed: seed, Level: "other", Coverage: cov,
 		Assumptions: assumptions, WallS: time.Since(start).Seconds(), Violations: bad}
-	os.MkdirAll(filepath.Dir(evPath), 0o755)
-	b, _ := json.MarshalIndent(ev, "", " ")
-	if err := os.WriteFile(evPath, b, 0o644); err != nil {
-		fmt.Println("UNDECIDED cannot write evidence:", err)
-		return 1
+	if !l.NoEvidence {
+		os.MkdirAll(filepath.Dir(evPath), 0o755)
+		b, _ := json.MarshalIndent(ev, "", " ")
+		if err := os.WriteFile(evPath, b, 0o644); err != nil {
+			fmt.Println("UNDECIDED cannot write evidence:", err)
+			return 1
+		}
 	}
 	if bad > 0 {
 		return 1
